@@ -21,7 +21,7 @@
    empty string) switches the default before-hook-creation off, which the three-constructor type
    cannot say ([policy_expressible]; witness HookMetaProofs.unknown_only_not_expressible). *)
 From Coq Require Import List String Ascii Bool Arith ZArith.
-From Helm Require Import Common.Assoc Engine.Types Gen.Events.
+From Helm Require Import Common.Assoc Engine.Types Engine.Eff Engine.Ops Gen.Events.
 From Helm Require Text.Split Text.Classify.
 Import ListNotations.
 Local Open Scope string_scope.
@@ -124,3 +124,37 @@ Definition doc_log_fetch (r : res) (p : string) : option log_sel :=
   | Some h => output_logs_by_policy (r_kind r) (r_name r) (Classify.hk_outlog h) p
   | None => None
   end.
+
+(* ---- the log fetches of execHook, interleaved with its watches (hooks.go:96-131) ---- *)
+(* observable events: a hook watch with its outcome, a GetPodList with its selector, an
+   OutputContainerLogsForPodList *)
+Inductive lev := LWatch (key : string) (ok : bool) | LFetch (sel : log_sel) | LOut.
+
+Definition hook_log_fetch (h : hook) (p : string) : list lev :=
+  match doc_log_fetch (h_res h) p with Some s => [LFetch s; LOut] | None => [] end.
+
+(* one execHook call over its sorted hooks [hs], given the outcomes [ws] of the watches still to
+   come in the operation: its events, the outcomes left, and whether every hook completed.
+   A failed watch is followed by outputLogsByPolicy(h, hook-failed); when all hooks succeeded, the
+   final loop runs outputLogsByPolicy(h, hook-succeeded) from the last hook to the first.  No watch
+   left (or the watch of another resource) = the deletion before creation or the creation failed
+   and execHook returned. *)
+Fixpoint phase_levs (hs done : list hook) (ws : list (string * bool)) : list lev * list (string * bool) * bool :=
+  match hs with
+  | [] => (flat_map (fun h => hook_log_fetch h "hook-succeeded") (List.rev done), ws, true)
+  | h :: t =>
+      match ws with
+      | [] => ([], [], false)
+      | (k, ok) :: ws' =>
+          if negb (String.eqb k (rkey (h_res h))) then ([], ws, false)
+          else if ok then
+            let '(l, r, c) := phase_levs t (done ++ [h])%list ws' in (LWatch k true :: l, r, c)
+          else ((LWatch k false :: hook_log_fetch h "hook-failed")%list, ws', false)
+      end
+  end.
+
+(* a non-atomic install / upgrade with hooks enabled: the pre-event hooks, then (only if they all
+   completed) the post-event hooks *)
+Definition op_levs (hs : list hook) (pre post : event) (ws : list (string * bool)) : list lev :=
+  let '(l1, r, c) := phase_levs (Ops.sort_hooks (Ops.hooks_for pre hs)) [] ws in
+  if c then (l1 ++ fst (fst (phase_levs (Ops.sort_hooks (Ops.hooks_for post hs)) [] r)))%list else l1.
